@@ -352,10 +352,11 @@ def _c10_fs_bs(v):
 
 @classifier('c12_await_in_unevaluated_annotation')
 def _c12_await_ann(v):
-    """F-C12-19: `await` inside the annotation of an annotated assignment in a (non-async) function body: CPython does not
-    compile such annotations, so it never checks the await"""
+    """F-C12-19: `await` / `yield from` inside the annotation of an annotated assignment in a function body: CPython does not
+    compile such annotations, so it never checks their placement"""
     d, msg, mech, ver = _c12(v)
-    return msg == "'await' outside async function" and 'annassign' in (d.get('ancestors') or []) and mech.get('innermost_scope') == 'funcdef'
+    return msg in ("'await' outside async function", "'yield from' inside async function") and 'annassign' in (d.get('ancestors') or []) \
+        and mech.get('innermost_scope') == 'funcdef'
 
 
 @classifier('c14_fstring_backslash_brace')
@@ -374,3 +375,11 @@ def _c12_rel_future(v):
     import re
     return ver >= (3, 13) and (msg.startswith('future feature ') or msg.startswith('from __future__ imports must occur') or msg in ('not a chance',)) \
         and bool(re.search(r'\bfrom\s*\.+\s*__future__\b', d.get('line_text') or ''))
+
+
+@classifier('c12_barry_as_flufl_refused')
+def _c12_flufl(v):
+    """F-C12-21: `from __future__ import barry_as_FLUFL` (a feature every CPython accepts) is refused on purpose"""
+    d, msg, mech, ver = _c12(v)
+    return msg == "Seriously I'm not implementing this :) ~ Dave" and 'barry_as_FLUFL' in (d.get('line_text') or '') \
+        and 'import_from' in (d.get('ancestors') or [])
